@@ -11,8 +11,11 @@ Contract (clause equals_some_sequential_order): the outcome
      fresh inserts, every lookup afterwards, cache still usable)
 equals the outcome of op1;op2 or of op2;op1 run sequentially on the same tree (sequential correctness
 itself is C02).  Clause no_deadlock: both threads finish.  Counters are not observed (DESIGN 3/C03).
-The schedule is fully determined by (op1, op2, k); each schedule is run twice (once probing the order
-first, once looking every key up first) and both runs must agree on the results.
+The schedule is fully determined by (op1, op2, k).  On an LRU each schedule is run twice (once probing
+the order first, once looking every key up first, since a lookup reorders); on an LRI once (lookups, then order).
+A failure is blamed on the operation that is not a single critical section of the cache lock (measured on a
+sequential run through the proxy); if both are, on A when it was parked outside the lock, else on B.
+A watchdog ends a schedule that runs away (endless walk over a corrupted ring) -> clause no_deadlock.
 """
 import os
 import sys
@@ -159,10 +162,38 @@ class LockProxy:
 
 
 class Parker:
+    """parks the thread playing A at its k-th event. 'line': sys.settrace line events in cacheutils.py;
+    'opcode': one event per bytecode instruction (sys.monitoring INSTRUCTION events on every function of
+    cacheutils.py; interpreters without sys.monitoring: settrace with f_trace_opcodes)"""
+    current = None
+
     def __init__(self, k, event):
-        self.k, self.event, self.count, self.where = k, event, 0, None
+        self.k, self.event, self.count, self.where, self.tid = k, event, 0, None, None
         self.parked, self.resume = threading.Event(), threading.Event()
         self.wake = None
+        self.monitoring = event == 'opcode' and hasattr(sys, 'monitoring')
+
+    def start(self):                       # called in thread A
+        self.tid = threading.get_ident()
+        if self.monitoring:
+            install_monitoring()
+            Parker.current = self
+        else:
+            sys.settrace(self.glob)
+
+    def stop(self):
+        if self.monitoring:
+            Parker.current = None
+        else:
+            sys.settrace(None)
+
+    def hit(self, where):
+        self.count += 1
+        if self.count == self.k:
+            self.where = where
+            self.parked.set()
+            self.wake.set()
+            self.resume.wait(8)
 
     def glob(self, frame, event, arg):
         if frame.f_code.co_filename != CU_FILE:
@@ -173,13 +204,30 @@ class Parker:
 
     def local(self, frame, event, arg):
         if event == self.event:
-            self.count += 1
-            if self.count == self.k:
-                self.where = '%s:%d' % (frame.f_code.co_name, frame.f_lineno)
-                self.parked.set()
-                self.wake.set()
-                self.resume.wait(8)
+            self.hit('%s:%d' % (frame.f_code.co_name, frame.f_lineno))
         return self.local
+
+
+def instruction_event(code, offset):
+    P = Parker.current
+    if P is not None and threading.get_ident() == P.tid:
+        P.hit('%s+%d' % (code.co_name, offset))
+
+
+def install_monitoring(done=[]):
+    if done:
+        return
+    done.append(1)
+    import types
+    mon = sys.monitoring
+    mon.use_tool_id(mon.DEBUGGER_ID, 'C03')
+    mon.register_callback(mon.DEBUGGER_ID, mon.events.INSTRUCTION, instruction_event)
+    funcs = [v for v in vars(cacheutils).values() if isinstance(v, types.FunctionType)]
+    for cls in [v for v in vars(cacheutils).values() if isinstance(v, type)]:
+        funcs += [v for v in vars(cls).values() if isinstance(v, types.FunctionType)]
+    for f in funcs:
+        if f.__code__.co_filename == CU_FILE:
+            mon.set_local_events(mon.DEBUGGER_ID, f.__code__, mon.events.INSTRUCTION)
 
 
 class ScheduleTimeout(BaseException):
@@ -276,11 +324,11 @@ def _run_schedule(cfg, f1, f2, k, event, mode):
     res = {}
 
     def ta():
-        sys.settrace(P.glob)
+        P.start()
         try:
             res['A'] = outcome(lambda: f1(c))
         finally:
-            sys.settrace(None)
+            P.stop()
             wakeA.set()
 
     def tb():
@@ -348,7 +396,7 @@ def sequential(cfg, fa, fb, mode):
             rb = outcome(lambda: fb(c))
             return ra, rb, observe(c, mode)
     except ScheduleTimeout:
-        return ('exc', 'runs away'), ('exc', 'runs away'), []
+        return ('exc', 'runs away'), ('exc', 'runs away'), [('exc', 'runs away')] * 6
 
 
 def describe(obs):
@@ -405,8 +453,8 @@ def simple(r):
 def run():
     sys.setswitchinterval(5e-5)         # thread hand-over latency only; the schedule does not depend on it
     H = Harness('C03',
-                rule='one evaluation = one forced schedule (start state, op1, op2, k, event kind) executed twice on the real '
-                     'cache and compared with both sequential orders; non-trivial = thread A was parked inside op1 after at '
+                rule='one evaluation = one forced schedule (start state, op1, op2, k, event kind) executed on the real '
+                     'cache (twice on an LRU) and compared with both sequential orders; non-trivial = thread A was parked inside op1 after at '
                      'least one event of cacheutils.py and thread B either completed while A was parked or was stopped by the lock',
                 bounds=dict(quick='LRU x 2 start states (max_size 3: full / not full) + LRI x full; on_miss None; 20 ops as A x 14 ops as B; every line '
                                   'event k of A',
@@ -434,7 +482,8 @@ def run():
                 H.note_truncated('%s: %s skipped, it raises RecursionError sequentially (C02 eq_by_contents)' % (part, o[0]))
             else:
                 good.append(o)
-        regions = {o[0]: lock_regions(cfg, cfg.fn(o)) for o in good}
+        ref = Config(cfg.cname, STATES[0], cfg.om)      # measured on the 3-key state: a per-key loop shows as >1 regions
+        regions = {o[0]: lock_regions(ref, ref.fn(o)) for o in good}
         st['ops_not_in_one_critical_section'] = sorted(o for o, n in regions.items() if n != 1)
         for op1 in good:
             f1 = cfg.fn(op1)
